@@ -267,6 +267,7 @@ pub struct FrontendCtx<'a, R: FileManager> {
     files_being_extracted_as_value: Vec<BffFileName>,
     values_being_extracted: Vec<ModuleItemAddress>,
     generic_instantiations_in_progress: usize,
+    member_accesses_being_evaluated: Vec<(ModuleItemAddress, String)>,
 }
 
 const MAX_GENERIC_INSTANTIATION_DEPTH: usize = 25;
@@ -1122,6 +1123,7 @@ impl<'a, R: FileManager> FrontendCtx<'a, R> {
             files_being_extracted_as_value: vec![],
             values_being_extracted: vec![],
             generic_instantiations_in_progress: 0,
+            member_accesses_being_evaluated: vec![],
         }
     }
 
@@ -2451,7 +2453,19 @@ impl<'a, R: FileManager> FrontendCtx<'a, R> {
                         };
                         let q = self.get_addressed_qualified_value(&new_addr, &anchor);
                         if let Ok(q) = q {
-                            return self.member_access_qualified_value(&q, key, &anchor);
+                            // `enum E { A = E.A }` / `const v = { a: v.a }`: the member is
+                            // defined in terms of itself, evaluating it would never end
+                            let access = (new_addr.clone(), key.clone());
+                            if self.member_accesses_being_evaluated.contains(&access) {
+                                return self.error(
+                                    &anchor,
+                                    DiagnosticInfoMessage::CannotNotResolveValue(new_addr),
+                                );
+                            }
+                            self.member_accesses_being_evaluated.push(access);
+                            let res = self.member_access_qualified_value(&q, key, &anchor);
+                            self.member_accesses_being_evaluated.pop();
+                            return res;
                         }
                         let decl = self.get_addressed_value(&new_addr, &anchor)?;
                         match decl {
